@@ -29,10 +29,27 @@ Proof.
   destruct fuel as [|fuel]; [discriminate|]. cbn [run]. intros H Hq.
   unfold bind in H.
   destruct ((if (hk m =? 1)%nat then Ok s else run fuel c PCheckHalt s)) as [s1| | |] eqn:E1; try discriminate.
-  set (s3 := enqueue c (next_hop c (mdest m)) m (set_scnt (scnt s1 + 1) s1)) in *.
-  destruct (inprq s3) eqn:E3.
-  - injection H as <-. congruence.
-  - eapply flush_to_cap_post; exact H.
+  eapply flush_to_cap_post; exact H.
+Qed.
+
+(* since the repair of the handler-side flush (D13) the same holds for an async issued by a handler: comm::async ends with
+   flush_to_capacity in every context, so whatever a handler sends, at most the capacity is left unsent when its async
+   returns (before, a handler's replies accumulated without bound and left as one physical send) *)
+Theorem async_unsent_le_cap_any_context c fuel m s s' :
+  run fuel c (PAsync m) s = Ok s' -> sbb s' <= c_cap c.
+Proof.
+  destruct fuel as [|fuel]; [discriminate|]. cbn [run]. intros H.
+  unfold bind in H.
+  destruct ((if (hk m =? 1)%nat then Ok s else run fuel c PCheckHalt s)) as [s1| | |] eqn:E1; try discriminate.
+  eapply flush_to_cap_post; exact H.
+Qed.
+Theorem bcast_unsent_le_cap_any_context c fuel m s s' :
+  run fuel c (PBcast m) s = Ok s' -> sbb s' <= c_cap c.
+Proof.
+  destruct fuel as [|fuel]; [discriminate|]. cbn [run]. intros H. unfold bind in H.
+  destruct (run fuel c PCheckHalt s) as [s1| | |]; try discriminate.
+  destruct (run fuel c (PQueueMany (locals_of c) m) s1) as [s2| | |]; try discriminate.
+  eapply flush_to_cap_post; exact H.
 Qed.
 
 (* the same for async_bcast *)
@@ -42,9 +59,7 @@ Proof.
   destruct fuel as [|fuel]; [discriminate|]. cbn [run]. intros H Hq. unfold bind in H.
   destruct (run fuel c PCheckHalt s) as [s1| | |]; try discriminate.
   destruct (run fuel c (PQueueMany (locals_of c) m) s1) as [s2| | |]; try discriminate.
-  destruct (inprq s2) eqn:E.
-  - injection H as <-. congruence.
-  - eapply flush_to_cap_post; exact H.
+  eapply flush_to_cap_post; exact H.
 Qed.
 
 (* unfolding equations (one step of [run]) *)
@@ -53,7 +68,7 @@ Lemma run_PAsync fu c m s :
   ((if (hk m =? 1)%nat then Ok s else run fu c PCheckHalt s) >>= fun s1 =>
    let s2 := set_scnt (scnt s1 + 1) s1 in
    let s3 := enqueue c (next_hop c (mdest m)) m s2 in
-   if inprq s3 then Ok s3 else run fu c PFlushToCap s3).
+   run fu c PFlushToCap s3).
 Proof. reflexivity. Qed.
 Lemma run_PCheckHalt fu c s :
   run (S fu) c PCheckHalt s =
@@ -97,7 +112,7 @@ Proof.
   set (s3 := enqueue c (next_hop c (mdest m)) m s2) in *.
   unfold s2 in E1, E2, E3, E4, E5, E6, E7.
   cbn [set_scnt inprq sbb log oracle pend sendq scnt] in E1, E2, E3, E4, E5, E6, E7.
-  rewrite E1, Hq. rewrite run_PFlushToCap. rewrite E2.
+  rewrite run_PFlushToCap. rewrite E2.
   destruct (Z.ltb_spec (c_cap c) (sbb s + wire c m)); [lia|].
   exists s3. repeat split; assumption.
 Qed.
